@@ -727,7 +727,7 @@ def stroh_eigen(E, L):
     E.canary('stroh.eigen.canary', m[0] == n[0])
     E.side_enabled = False
     block, info = _extract_range(L, STROH, 'solve', _assign_to('Cijkl'), _assign_to('N'))
-    E.prove('stroh.N.block_found', info['last_line'] > info['first_line'])
+    E.shape('stroh.N.block_found', info['last_line'] > info['first_line'])
     rec = {}
     real_np = mod.np
     mod.np = _InvStub(E, rec)
